@@ -58,6 +58,7 @@ def ins_corpus(tier, seed):
         ins_spec("trunc2", s + 6, 100, max_iteration=4),          # samples with log-likelihood -inf are returned
         ins_spec("offlow2", s + 7, 100, max_iteration=3),         # ln Z ~ -700: exp(ln Z) underflows float64
         ins_spec("offhigh2", s + 8, 100, max_iteration=3),        # ln Z ~ +700
+        ins_spec("uprior2", s + 9, 100, max_iteration=4),         # prior not uniform in the unit hypercube
     ]
     if tier == "thorough":
         k = 6
